@@ -5,6 +5,7 @@ value or of a name, and writes the name the proto had).
 -/
 import IrVerif.Lemmas.ScopeExt
 import IrVerif.Lemmas.ScopeTree
+import IrVerif.Lemmas.ScopeModel
 namespace IrVerif.Scope
 
 /-- every resolved sharding value is allocated and named -/
@@ -344,5 +345,98 @@ theorem deserializeE_devsOK (p : GraphE) (w : WorldE) (h : deserializeE p = .ok 
     subst h
     exact deserGraphE_devsOK p {} {} [] st x g (fun _ _ => rfl) (fun _ ht => by simp at ht) (fun _ ht => by simp at ht)
       (fun _ _ hd => by simp [Ext.devs] at hd) hg
+
+/-! ### functions and models -/
+
+theorem deserFInputsE_devs (vt : List (Name × Info × SS)) : ∀ (ns : List Name) (st : Store) (x : Ext),
+    (deserFInputsE st x vt ns).2.1.devs = x.devs
+  | [], _, _ => rfl
+  | n :: ns, st, x => by
+    simp only [deserFInputsE]
+    rw [deserFInputsE_devs vt ns, Ext.newNamed_devs]
+
+theorem deserFunctionE_devsOK (f : FuncE) (st : Store) (x : Ext) (st' : Store) (x' : Ext) (g : GraphT)
+    (hf : Fresh st) (hd : DevsOK st x) (h : deserFunctionE st x f = .ok (st', x', g)) : DevsOK st' x' := by
+  simp only [deserFunctionE] at h
+  obtain ⟨a, b⟩ := deserFInputsE_erase (vinfoTableE f.vinfo) f.inputs st x
+  have dI := deserFInputsE_devs (vinfoTableE f.vinfo) f.inputs st x
+  obtain ⟨hids, hnv1, hf1, _, keep1⟩ := deserFInputs_spec (eraseVT (vinfoTableE f.vinfo)) f.inputs st
+  obtain ⟨hnl, _⟩ := deserFInputs_named (eraseVT (vinfoTableE f.vinfo)) f.inputs st
+  have ok1 := finputTable_ok (eraseVT (vinfoTableE f.vinfo)) f.inputs st
+  have f1 := hf1 hf
+  rw [← a] at hnv1 f1 keep1 hnl ok1
+  rw [← b] at hnl ok1
+  generalize deserFInputsE st x (vinfoTableE f.vinfo) f.inputs = r1 at h dI hnv1 f1 keep1 hnl ok1
+  obtain ⟨st1, x1, ins⟩ := r1
+  simp only at h dI hnv1 f1 keep1 hnl ok1
+  have n1 : Named st1 (finputTable f.inputs ins) := by
+    intro e he
+    simp only [finputTable, List.mem_reverse] at he
+    exact zip_map_eq (fun v => (st1.vals v).name) some f.inputs ins hnl e he
+  have le1 : st.nv ≤ st1.nv := by rw [hnv1]; omega
+  split at h
+  · simp at h
+  · rename_i st2 x2 tbl2 h2
+    have d2 := declareNodesE_devs _ _ _ _ _ _ _ _ _ h2
+    have e2 := declareNodesE_erase (vinfoTableE f.vinfo) [] f.nodes st1 x1 (finputTable f.inputs ins)
+    rw [h2] at e2
+    simp only [dropX] at e2
+    obtain ⟨q3, ok3, _, _, _⟩ := declareNodes_spec _ _ st1 _ st.nv st2 tbl2 ok1 le1 e2.symm
+    have f2 := q3.fresh f1
+    have n2 := declareNodes_named _ _ st1 _ st2 tbl2 n1 ok1.lt e2.symm
+    have le2 : st.nv ≤ st2.nv := Nat.le_trans le1 q3.nv_le
+    have hd2 : DevsOK st2 x2 := hd.keep (by rw [d2, dI]) le2
+      (fun v hv => by rw [q3.names v (Nat.lt_of_lt_of_le hv le1), keep1 v hv])
+    have hol : TablesLt st2 [] := fun _ ht => by simp at ht
+    split at h
+    · simp at h
+    · rename_i st3 x3 tbl3 ns h3
+      obtain ⟨hd3, _⟩ := deserNodesE_devsOK f.nodes st2 x2 tbl2 [] (vinfoTableE f.vinfo) [] st.nv st3 x3 tbl3 ns f2 ok3 hol
+        le2 n2 (fun _ ht => by simp at ht) hd2 h3
+      split at h
+      · simp at h
+      · rename_i outs _
+        simp only [Except.ok.injEq, Prod.mk.injEq] at h
+        obtain ⟨rfl, rfl, _⟩ := h
+        obtain ⟨c1, _, _⟩ := mkGraph_fst_counters st3 ins outs ns []
+        refine hd3.keep rfl (by rw [c1]; exact Nat.le_refl _) (fun v _ => ?_)
+        rw [mkGraph_cell]
+
+theorem deserFuncsE_devsOK : ∀ (fs : List FuncE) (st : Store) (x : Ext) (d : List (FId × GraphT)) (st' : Store) (x' : Ext)
+    (d' : List (FId × GraphT)), Fresh st → DevsOK st x → deserFuncsE st x d fs = .ok (st', x', d') → DevsOK st' x'
+  | [], st, x, d, st', x', d', _, hd, h => by
+    simp only [deserFuncsE, Except.ok.injEq, Prod.mk.injEq] at h
+    obtain ⟨rfl, rfl, _⟩ := h
+    exact hd
+  | f :: fs, st, x, d, st', x', d', hf, hd, h => by
+    simp only [deserFuncsE] at h
+    split at h
+    · simp at h
+    · rename_i st1 x1 g h1
+      have e1 := deserFunctionE_erase f st x
+      rw [h1] at e1
+      simp only [dropX] at e1
+      obtain ⟨f1, _, _, _⟩ := deserFunction_frame f.erase st st1 g hf e1.symm
+      exact deserFuncsE_devsOK fs st1 x1 _ st' x' d' f1 (deserFunctionE_devsOK f st x st1 x1 g hf hd h1) h
+
+/-- models with functions: every resolved sharding value (in the main graph and in the function bodies) is an
+    allocated, named value -/
+theorem deserializeME_devsOK (p : ModelE) (w : MWorldE) (h : deserializeME p = .ok w) : DevsOK w.st w.ext := by
+  simp only [deserializeME] at h
+  split at h
+  · simp at h
+  · rename_i st x g hg
+    split at h
+    · simp at h
+    · rename_i st1 x1 fs hfs
+      simp only [Except.ok.injEq] at h
+      subst h
+      have e1 := deserGraphE_erase p.graph {} {} []
+      rw [hg] at e1
+      simp only [dropX] at e1
+      obtain ⟨f0, _⟩ := deserGraph_struct _ {} [] st g (fun _ _ => rfl) (fun _ ht => by simp at ht) e1.symm
+      have hd0 := deserGraphE_devsOK p.graph {} {} [] st x g (fun _ _ => rfl) (fun _ ht => by simp at ht)
+        (fun _ ht => by simp at ht) (fun _ _ hd => by simp at hd) hg
+      exact deserFuncsE_devsOK p.funcs st x [] st1 x1 fs f0 hd0 hfs
 
 end IrVerif.Scope
